@@ -73,6 +73,7 @@ def run(chk):
     chk.trusted.append('harness/shape.py: AST lookup of the statements mirrored by the hand model (Gen/C15Shape.v)')
     proved = chk.prove(['theories/Gen/C15Shape.v', 'theories/C15/Model.v', 'theories/C15/Proofs.v', 'theories/C15/Keys.v', 'theories/C15/KeysProofs.v',
                         'theories/C15/Run.v'], 'theories/C15/Properties.v')
+    proved = chk.prove(['theories/C15/Keys.v', 'theories/C15/KeysProofs.v'], 'theories/C15/KeysProperties.v') and proved
     model_ok = True
     if not proved:
         try:
